@@ -336,15 +336,15 @@ theorem safe_two (inp : Input) (o : Op)
   rcases ho with rfl | rfl | rfl | rfl | rfl <;> simp only [shapeOk, Bool.and_eq_true] at hs
   · exact safe_fwd2 hs.1.1.1.2 hs.1.1.2 (destOk_res inp)
   · exact safe_fwd2 (anyCat_of_rv hs.1.1.2) (anyCat_of_rv hs.1.2) (destOk_res inp)
-  · exact safe_fwd2 (anyCat_of_rv hs.1.1.1.2) hs.1.1.2 (destOk_res inp)
-  · exact safe_fwd2 (anyCat_of_rv hs.1.1.2) hs.1.2 (destOk_res inp)
+  · exact safe_fwd2 hs.1.1.1.2 hs.1.1.2 (destOk_res inp)
+  · exact safe_fwd2 hs.1.1.2 hs.1.2 (destOk_res inp)
   · exact safe_fwd2 hs.1.1.2 hs.1.2 (destOk_res inp)
 
 theorem safe_arrJoin3 (inp : Input) (h : wf .arrJoin3 inp = true) : Safe inp (prog .arrJoin3 inp) := by
   have hs := shape_of_wf h
   simp only [shapeOk, Bool.and_eq_true] at hs
   obtain ⟨⟨⟨⟨_, h0⟩, h1⟩, h2⟩, _⟩ := hs
-  refine safe_append (safe_fwd2 (anyCat_of_rv h0) h1 (destOk_res inp)) (safe_xferAll_fwd h2 (Nat.le_refl _) (destOk_res inp)) ?_
+  refine safe_append (safe_fwd2 h0 h1 (destOk_res inp)) (safe_xferAll_fwd h2 (Nat.le_refl _) (destOk_res inp)) ?_
   intro x hx y hy
   rcases List.mem_append.1 hx with hx | hx
   · exact cross_of_args (onArg_xferAll _ _ _ _) (onArg_xferAll _ _ _ _) (by decide) x hx y hy
